@@ -100,8 +100,20 @@ func (w *world) leaderEverChanged() bool {
 	return false
 }
 
+// curThread: the harness thread (a placeholder in the free-running race pass, which evaluates no oracle).
+func curThread() *sched.Thread {
+	if t := sched.Cur(); t != nil {
+		return t
+	}
+	return &sched.Thread{}
+}
+
 func (w *world) alloc(member string, a id.Allocator) {
-	t := sched.Cur()
+	if sched.FreeRunning { // race pass: the operation alone, no bookkeeping
+		_, _ = a.Alloc()
+		return
+	}
+	t := curThread()
 	w.curInst[t.ID] = member
 	before := stored(w.st)
 	v, err := a.Alloc()
@@ -115,7 +127,11 @@ func (w *world) alloc(member string, a id.Allocator) {
 }
 
 func (w *world) rebase(member string, a id.Allocator) {
-	t := sched.Cur()
+	if sched.FreeRunning {
+		_ = a.Rebase()
+		return
+	}
+	t := curThread()
 	w.curInst[t.ID] = member
 	before := stored(w.st)
 	n := len(w.st.Log)
@@ -140,7 +156,15 @@ func (w *world) rebase(member string, a id.Allocator) {
 // calls without scheduling points, checked inline (strictly +1, never above the
 // stored bound) and recorded as first/last only. It stops at the first error.
 func (w *world) drain(member string, a id.Allocator, n int) {
-	t := sched.Cur()
+	if sched.FreeRunning {
+		for i := 0; i < n; i++ {
+			if _, err := a.Alloc(); err != nil {
+				return
+			}
+		}
+		return
+	}
+	t := curThread()
 	w.curInst[t.ID] = member
 	sched.Atomic(func() {
 		var prev uint64
